@@ -120,3 +120,84 @@ Definition ReseatOK (l r : list bcs) : Prop :=
 (* a tempo point of a TimingMap sits at init + (integrated time) with the bpm of the listed change *)
 Definition bco_near (init : Q) (b : bco) (p : Q * bcs) : Prop :=
   bo_off b == init + fst p /\ bo_bpm b == bs_bpm (snd p).
+
+(* ================================================================== lists with TIES (two or more changes on one position)
+   Domain wf_ties (ReseatSpec.v): as wf_unseated but positions only non-decreasing.  The guards above apply unchanged: the beat
+   distance of a tie is 0, so it is in no window (a zero-length gap takes no branch of the loop).
+   Timeline semantics with ties: `timeline t0 l` lists the changes in list order, each with its time; tied changes are
+   consecutive entries with equal times.  The change in force at time x is the LAST entry whose time is <= x
+   (`active_at`, = Integrate.active_by_time): of a tie group, the last change in list order.  `refines` needs no change: the
+   gap between tied changes is whole (0 measures), so both are matched in order by rf_keep, the earlier one keeping its bpm. *)
+Fixpoint mono_offs (o0 : Q) (os : list Q) : Prop :=
+  match os with [] => True | o1 :: os' => o0 <= o1 /\ mono_offs o1 os' end.
+Definition nondecr (ts : list Q) : Prop :=
+  match ts with [] => True | t :: ts' => mono_offs t ts' end.
+
+(* all on measure lines, measures non-decreasing *)
+Fixpoint nondec_from (prev : Z) (r : list bcs) : Prop :=
+  match r with
+  | [] => True
+  | c :: r' => (prev <= s_m (bs_snap c))%Z /\ s_b (bs_snap c) == 0 /\ nondec_from (s_m (bs_snap c)) r'
+  end.
+Definition SeatedWeakP (r : list bcs) : Prop :=
+  exists h tl, r = h :: tl /\ s_m (bs_snap h) = 0%Z /\ s_b (bs_snap h) == 0 /\ nondec_from 0 tl.
+
+Definition reseat_strong_ties (l r : list bcs) : Prop :=
+  SeatedWeakP r /\ refines (timeline 0 l) (timeline 0 r).
+
+(* two consecutive changes of the input are both at time u *)
+Definition tie_at (ts : list Q) (u : Q) : Prop :=
+  exists k a b, nth_error ts k = Some a /\ nth_error ts (S k) = Some b /\ a == u /\ b == u.
+
+(* consecutive result points: time and measure never decrease; the measure stays iff the time stays, and that happens only
+   across a tie of the input (so: measures strictly increasing except across a tie) *)
+Definition MeasTiesP (l r : list bcs) : Prop :=
+  forall j x y u v, nth_error r j = Some x -> nth_error r (S j) = Some y ->
+    nth_error (times r) j = Some u -> nth_error (times r) (S j) = Some v ->
+    u <= v /\ (s_m (bs_snap x) <= s_m (bs_snap y))%Z /\ (s_m (bs_snap x) = s_m (bs_snap y) <-> u == v) /\
+    (u == v -> tie_at (times l) u).
+
+(* a tie of the input yields two ADJACENT result points at that time, in the input's order, the earlier keeping its bpm *)
+Definition TiePairP (l r : list bcs) : Prop :=
+  forall k a c b c', nth_error (timeline 0 l) k = Some (a, c) -> nth_error (timeline 0 l) (S k) = Some (b, c') -> a == b ->
+    exists j u d v e, nth_error (timeline 0 r) j = Some (u, d) /\ nth_error (timeline 0 r) (S j) = Some (v, e) /\
+                      u == a /\ v == a /\ bs_bpm d == bs_bpm c /\ s_m (bs_snap d) = s_m (bs_snap e).
+
+(* entry k of a timeline is the last one at its time *)
+Definition last_of_group (ts : list (Q * bcs)) (k : nat) (t : Q) : Prop :=
+  forall t' n, nth_error ts (S k) = Some (t', n) -> t < t'.
+
+(* (3) which bpm is in force after a tie.  Let c be the LAST change of its tie group (any change of a strict list), at time t.
+   In the input it is in force on [t, next original time).  Its image (u, d) in the result is the last result point at
+   time t and is in force on [t, next result point); it carries c's bpm when a whole number of measures follows (then the
+   next result point is the next original change) or when an extra point was inserted (next result point before the next
+   original change) - i.e. always except when the partial measure after c is shorter than a measure and c itself is re-timed. *)
+Definition ActiveLastP (l r : list bcs) : Prop :=
+  forall k t c, nth_error (timeline 0 l) k = Some (t, c) -> last_of_group (timeline 0 l) k t ->
+    (forall x, t <= x -> (forall t' n, nth_error (timeline 0 l) (S k) = Some (t', n) -> x < t') ->
+               active_at (timeline 0 l) x = Some (t, c)) /\
+    exists j u d, nth_error (timeline 0 r) j = Some (u, d) /\ u == t /\ last_of_group (timeline 0 r) j t /\
+      (forall x, t <= x -> (forall v e, nth_error (timeline 0 r) (S j) = Some (v, e) -> x < v) ->
+                 active_at (timeline 0 r) x = Some (u, d)) /\
+      ((forall t' n, nth_error (timeline 0 l) (S k) = Some (t', n) -> whole c n) ->
+         bs_bpm d == bs_bpm c /\
+         forall t' n v e, nth_error (timeline 0 l) (S k) = Some (t', n) -> nth_error (timeline 0 r) (S j) = Some (v, e) -> v == t') /\
+      (forall t' n v e, nth_error (timeline 0 l) (S k) = Some (t', n) -> nth_error (timeline 0 r) (S j) = Some (v, e) ->
+         v < t' -> bs_bpm d == bs_bpm c).
+
+(* (4) an already seated list, ties allowed: same length, same times, same bpms *)
+Definition FixpointTiesP (l r : list bcs) : Prop :=
+  seated_weak l = true ->
+  length r = length l /\
+  Forall2 (fun p q => fst p == fst q /\ bs_bpm (snd p) == bs_bpm (snd q)) (timeline 0 l) (timeline 0 r).
+
+(* the property statement for lists with ties, clause by clause *)
+Definition ReseatTiesP (l r : list bcs) : Prop :=
+  SeatedWeakP r /\ MeasTiesP l r /\ TimesKeptP l r /\ TiePairP l r /\ OneExtraP l r /\ BpmKeptP l r /\ ElapsedP l r /\
+  ActiveLastP l r /\ FixpointTiesP l r /\ nondecr (times r).
+
+Definition ReseatTiesOK (l r : list bcs) : Prop :=
+  reseat_strong_ties l r            (* structural: measure lines + timeline refinement (order, stable ties) *)
+  /\ reseat_tiesb l r = true        (* the strong boolean oracle accepts it *)
+  /\ reseat_specb_ties l r = true   (* and so does the weaker one *)
+  /\ ReseatTiesP l r.               (* the property statement, clause by clause *)
